@@ -142,6 +142,7 @@ type world struct {
 
 	// first complete content seen per secret: name -> key -> bytes
 	complete map[string]map[string][]byte
+	partial  map[string]map[string][]byte
 	// digests of default objects that existed before init
 	defaults map[simapi.ObjKey]string
 	runs     int
@@ -159,6 +160,8 @@ var refPool = []string{
 	"crossplane-contrib/provider-nop:v0.2.0",
 	"xpkg.upbound.io/crossplane-contrib/provider-aws@sha256:" + strings.Repeat("ab", 32),
 	"registry.example.org:5000/acme/provider-x:v1.0.0",
+	"registry.example.org:5000/acme/provider-w:v1.0.0",
+	"registry.example.org:5000/other/provider-v@sha256:" + strings.Repeat("cd", 32),
 	"docker.io/acme/provider-y:v1.0.0",
 	"index.docker.io/acme/provider-z:v2.0.0",
 }
@@ -344,6 +347,7 @@ func (prop) Run(t *testing.T, s *sim.Sim, res *runner.Result) {
 	}
 	w.snapshotDefaults()
 	w.complete = map[string]map[string][]byte{}
+	w.partial = map[string]map[string][]byte{}
 	w.observe()
 
 	// ---- init runs that may be aborted
@@ -609,6 +613,23 @@ func (w *world) observe() {
 		}
 		if full {
 			w.complete[n] = d
+		} else if n != "crossplane-root-ca" {
+			// a server or client secret that holds some of the material is somebody's
+			// to complete: what it holds is kept as it is
+			any := false
+			for _, k := range need {
+				any = any || len(d[k]) > 0
+			}
+			if old, ok := w.partial[n]; ok {
+				for _, k := range need {
+					if len(old[k]) > 0 && !bytes.Equal(old[k], d[k]) {
+						w.s.Violate("C20/existing-certificate-replaced/"+n+"/partially-filled", fmt.Sprintf("secret %s held %s (and not all of the other keys); it changed", n, k))
+					}
+				}
+			} else if any {
+				w.partial[n] = d
+				w.s.Probe("partially-filled-tls-secret-watched")
+			}
 		}
 	}
 	for k, dg := range w.defaults {
